@@ -197,6 +197,22 @@ theorem C08_match_unique_noBS (es : Entries) (q : GoVal) (hinv : NoEqualKeys es)
   C08_match_unique es q hinv (fun e1 h1 e2 h2 g1 g2 =>
     C07_trans e1.1 q e2.1 (wes e1 h1) wq (wes e2 h2) hq (by rw [C07_symm]; exact g1) g2)
 
+/-- **C08 (Get, most recent).** Right after `Set k v`, EVERY query equal to `k` that holds no
+    ByteString returns `v`, whatever else is stored and whatever the table picks: the side condition
+    of `C08_get_after_set` follows from transitivity through the query. (A ByteString query is K2.) -/
+theorem C08_get_after_set_noBS (pick pick' : Entries → Nat) (es : Entries) (k v q : GoVal)
+    (hq : goEqual q k = true) (nq : noBS q = true) (wq : rangeOK q = true) (wk : rangeOK k = true)
+    (wes : ∀ e ∈ es, rangeOK e.1 = true) : tableGet pick' (dictSet pick es k v) q = some v := by
+  rw [C08_set]
+  refine C08_get_after_set pick' es k v q hq ?_
+  intro e he hke
+  cases hqe : goEqual q e.1 with
+  | false => rfl
+  | true =>
+    have : goEqual k e.1 = true :=
+      C07_trans k q e.1 wk wq (wes e he) nq (by rw [C07_symm]; exact hq) hqe
+    rw [this] at hke; exact absurd hke (by simp)
+
 /-- The K2 shape: through a ByteString in the middle, transitivity fails. -/
 theorem strEq_not_trans : strEq 0 [97] 1 [97] = true ∧ strEq 1 [97] 2 [97] = true ∧ strEq 0 [97] 2 [97] = false := by
   decide
